@@ -74,6 +74,7 @@ type Machine struct {
 	gs      []*G
 	globals map[*ssa.Global]Ptr
 	wgs     map[Ptr]*WG
+	curIn   ssa.Instruction // the instruction being executed (for environment models that report races)
 	mus     map[Ptr]*Mu
 	onces   map[Ptr]*OnceSt
 	bufs    map[Ptr]*[]Value
@@ -496,7 +497,7 @@ func (m *Machine) step(g *G) bool {
 	if m.steps > m.ex.ex.cfg.StepBudget {
 		m.fail("unwind", fmt.Sprintf("step budget %d exceeded at %s", m.ex.ex.cfg.StepBudget, m.pos(in)))
 	}
-	m.cur = g
+	m.cur, m.curIn = g, in
 	switch in := in.(type) {
 	case *ssa.Alloc:
 		m.setResult(fr, in, newCell(zero(in.Type().(*types.Pointer).Elem())))
